@@ -873,7 +873,7 @@ def sc_s2c(case, res):
 
         def keyfn(cls, pl):
             k = "payload=" + size_class(len(pl))
-            if earlier:
+            if earlier and min(earlier) <= 16:      # a tiny message may leave output behind in the deflater
                 k += ":after-payload=" + size_class(min(earlier))
             return k
         # shape of a crash = the message being sent when the process died
@@ -1201,7 +1201,7 @@ def gen_cases(tier, seed):
                 out.append((cls, n))
         return out
     for frag in FRAGS:
-        reps = (60 if thorough else 9) * (4 if frag == "single" else 1)
+        reps = (60 if thorough else 16) * (4 if frag == "single" else 1)
         for i in range(reps):
             level = rng.choice((1, 2, 3))
             add("c2s", level=level, kind=rng.choice("tb"), offer=rng.choice(OFFERS_C2S), frag=frag,
@@ -1227,7 +1227,7 @@ def gen_cases(tier, seed):
 
     # --- corrupt
     for how in MUTATIONS:
-        reps = 90 if thorough else 9
+        reps = 90 if thorough else 14
         if how in ("bitflip", "bitflips", "truncate", "random-bytes", "garbage"):
             reps *= 3
         for i in range(reps):
